@@ -15,7 +15,9 @@ RULE = ("call sequences of 1-14 steps drawn from an evolving fake kernel: 1-4 de
         "threads in a scripted alternation, two free-running threads drive the two names concurrently, and three-thread schedules "
         "over both functions (rounds of solo call | clear | two overlapping calls whose wrap steps come in either order, while a third "
         "thread clears a cache or makes a nowrap=False call between the platform reads and the wrap steps; the platform read is replaced "
-        "by a scripted kernel and is the pre-emption point; monotone and wrapping kernels) are replayed deterministically. Width part: "
+        "by a scripted kernel and is the pre-emption point; monotone and wrapping kernels) are replayed deterministically. Pre-emption "
+        "part: a cache_clear() by a second thread at EVERY line of _WrapNumbers.run() of a call in flight (settrace), all points "
+        "enumerated per case, answers demanded to be those of one of the two orders of the two operations. Width part: "
         "tuples that shrink (answered) or grow (IndexError) under one name, judged against the total specification. Exhaustive part: all sequences over one device x 1 counter with readings "
         "{absent,0,1,2} and cache_clear. A case is non-trivial when it has at least two nowrap=True calls under one name; "
         "distinct = distinct canonical case hash.")
@@ -24,7 +26,7 @@ TRUSTED = ["correspondence harness props/C10.py + pv/ (fake /proc/net/dev, /proc
            "the reading of the property text as the ghost specification coq/C10/Spec.v"]
 ASSUMPTIONS = ["run() and cache_clear() are atomic (they execute under _WrapNumbers.lock); a nowrap=True public call holds "
                "_nowrap_lock from its platform read to the end of its wrap step (commit 3202409) -- the locks themselves are "
-               "exercised by the threaded cases, not proved",
+               "exercised by the threaded cases and attacked at every line of run() by the pre-emption cases, not proved",
                "threads: pre-emption is modelled between the platform read and the wrap step of a call (the wrap step and cache_clear "
                "are atomic under _wn.lock; presentation works on the thread's own dict); overlapping operations may take effect in "
                "either order (linearisation at the wrap step)",
@@ -997,7 +999,8 @@ MANIFEST = {
             "after a clear the next nowrap=True answer of that function is raw in every interleaving; without the lock a witness schedule "
             "answers 350 for a reading of 150 (fixed finding read-outside-lock). The model is tied to the code by running the real psutil "
             "(direct API and public API over generated /proc/net/dev, /proc/diskstats) on generated and exhaustively enumerated sequences, on "
-            "two scripted alternating threads, two free-running threads, and three real threads with a pre-empting scripted platform read, "
+            "two scripted alternating threads, two free-running threads, three real threads with a pre-empting scripted platform read, "
+            "and a clearing thread released at every line of _WrapNumbers.run() of a call in flight (the atomicity the model assumes), "
             "comparing every answer and cache_info().",
     "note": "Trusted: Coq kernel + vm_compute; hand-written model coq/C10/Model.v (tied by the correspondence run only); the ghost "
             "specification coq/C10/Spec.v and the linearisation reading of concurrent executions; harness; CPython builtins and threading.Lock. "
